@@ -226,7 +226,7 @@ def run_both(c, exe, ws, script, tag="s"):
     with open(p, "w") as f:
         f.write(script)
     rc, out = run_impl(exe, ws, p)
-    impl = [l for l in out.splitlines() if l.startswith("ret=") or l == "bad-op"]
+    impl = [l for l in out.splitlines() if l.startswith("ret=") or l.startswith("ids ") or l == "bad-op"]
     model = run_model(script).splitlines()
     return rc, out, impl, model
 
